@@ -378,7 +378,11 @@ def run_rules(repo: Repo, propmod, tier: str, only_rule: str = None) -> Ctx:
         before = len(ctx.instances)
         try:
             rule.fn(ctx)
-        except AnalysisError:
+        except AnalysisError as e:
+            if any(i.status == "violation" for i in ctx.instances):
+                # the violation already names a construct; the rest of this rule is undecided
+                ctx.note("%s: analysis stopped after the reported violation(s): %s" % (rule.id, str(e).splitlines()[0]))
+                continue
             raise
         except RecursionError as e:
             raise AnalysisError("%s: recursion limit in analyser (%s)" % (rule.id, e))
